@@ -37,22 +37,42 @@ import (
 )
 
 type Scenario struct {
-	Kind       string `json:"kind"`        // restart | restart-sends-while-down | remote-closes-connection
-	Pre        int    `json:"pre"`         // packets sent (and received) before the event
-	DownMs     int    `json:"down_ms"`     // how long the endpoint stays down (restart kinds)
-	After      int    `json:"after"`       // packets sent after the event
-	IntervalMs int    `json:"interval_ms"` // pause between them
-	Size       int    `json:"size"`        // payload bytes
+	Kind       string `json:"kind"`           // restart | restart-sends-while-down | remote-closes-connection
+	Pre        int    `json:"pre"`            // packets sent (and received) before the event
+	DownMs     int    `json:"down_ms"`        // how long the endpoint stays down (restart kinds)
+	After      int    `json:"after"`          // packets sent after the event
+	IntervalMs int    `json:"interval_ms"`    // pause between them
+	Size       int    `json:"size"`           // payload bytes
+	IPv6       bool   `json:"ipv6,omitempty"` // sender and endpoint bound to [::1] instead of 127.0.0.1
 }
 
 type Outcome struct {
-	Skipped      string `json:"skipped,omitempty"` // non-empty: the environment did not allow the run (no verdict)
-	PreArrived   int    `json:"pre_arrived"`
-	AfterSent    int    `json:"after_sent"`    // WriteTo calls after the event
-	AfterOK      int    `json:"after_ok"`      // ... that returned nil
-	AfterArrived int    `json:"after_arrived"` // packets that reached the endpoint after the event
-	TailArrived  bool   `json:"tail_arrived"`  // every packet of the second half arrived
-	LastErr      string `json:"last_err,omitempty"`
+	Skipped        string `json:"skipped,omitempty"` // non-empty: the environment did not allow the run (no verdict)
+	PreArrived     int    `json:"pre_arrived"`
+	AfterSent      int    `json:"after_sent"`    // WriteTo calls after the event
+	AfterOK        int    `json:"after_ok"`      // ... that returned nil
+	AfterArrived   int    `json:"after_arrived"` // packets that reached the endpoint after the event
+	TailArrived    bool   `json:"tail_arrived"`  // every packet of the second half arrived
+	LastErr        string `json:"last_err,omitempty"`
+	NeverDelivered bool   `json:"never_delivered,omitempty"` // packets accepted by WriteTo before any event never arrived
+	BadFrom        string `json:"bad_from,omitempty"`        // a packet arrived with a source address other than the sender's listener
+}
+
+// HasIPv6 reports whether the machine has an IPv6 loopback to bind to.
+func HasIPv6() bool {
+	l, err := net.Listen("tcp", "[::1]:0")
+	if err != nil {
+		return false
+	}
+	l.Close()
+	return true
+}
+
+func loopback(ipv6 bool) string {
+	if ipv6 {
+		return "::1"
+	}
+	return "127.0.0.1"
 }
 
 type endpoint struct {
@@ -60,14 +80,38 @@ type endpoint struct {
 	mu      sync.Mutex
 	conns   []net.Conn
 	packets chan []byte
+	froms   *fromSet
 }
 
-func startEndpoint(addr string, cert tls.Certificate, packets chan []byte) (*endpoint, error) {
+// fromSet: the source addresses of the packets read (shared by the endpoint's incarnations)
+type fromSet struct {
+	mu sync.Mutex
+	m  map[string]bool
+}
+
+func (f *fromSet) add(s string) {
+	f.mu.Lock()
+	f.m[s] = true
+	f.mu.Unlock()
+}
+
+func (f *fromSet) other(want string) string {
+	f.mu.Lock()
+	defer f.mu.Unlock()
+	for s := range f.m {
+		if s != want {
+			return s
+		}
+	}
+	return ""
+}
+
+func startEndpoint(addr string, cert tls.Certificate, packets chan []byte, froms *fromSet) (*endpoint, error) {
 	ln, err := tls.Listen("tcp", addr, &tls.Config{Certificates: []tls.Certificate{cert}})
 	if err != nil {
 		return nil, err
 	}
-	e := &endpoint{ln: ln, packets: packets}
+	e := &endpoint{ln: ln, packets: packets, froms: froms}
 	go func() {
 		for {
 			c, err := ln.Accept()
@@ -84,6 +128,7 @@ func startEndpoint(addr string, cert tls.Certificate, packets chan []byte) (*end
 						return
 					}
 					if p != nil {
+						e.froms.add(p.From.String())
 						e.packets <- p.Buf
 					}
 				}
@@ -160,7 +205,11 @@ func Run(sc Scenario) Outcome {
 	lg := slog.New(slog.NewTextHandler(io.Discard, nil))
 	ctx, cancel := context.WithCancel(context.Background())
 	defer cancel()
-	sender, err := cluster.NewTLSTransport(ctx, lg, prometheus.NewRegistry(), "127.0.0.1", 0, &cluster.TLSTransportConfig{
+	if sc.IPv6 && !HasIPv6() {
+		out.Skipped = "no IPv6 loopback"
+		return out
+	}
+	sender, err := cluster.NewTLSTransport(ctx, lg, prometheus.NewRegistry(), loopback(sc.IPv6), 0, &cluster.TLSTransportConfig{
 		TLSServerConfig: &web.TLSConfig{TLSCertPath: cf, TLSKeyPath: kf},
 		TLSClientConfig: &config.TLSConfig{InsecureSkipVerify: true},
 	})
@@ -169,8 +218,10 @@ func Run(sc Scenario) Outcome {
 		return out
 	}
 	defer sender.Shutdown()
+	wantFrom := net.JoinHostPort(loopback(sc.IPv6), fmt.Sprint(sender.GetAutoBindPort()))
+	froms := &fromSet{m: map[string]bool{}}
 
-	l, err := net.Listen("tcp", "127.0.0.1:0")
+	l, err := net.Listen("tcp", net.JoinHostPort(loopback(sc.IPv6), "0"))
 	if err != nil {
 		out.Skipped = "no free port: " + err.Error()
 		return out
@@ -178,7 +229,7 @@ func Run(sc Scenario) Outcome {
 	addr := l.Addr().String()
 	l.Close()
 	packets := make(chan []byte, 4096)
-	ep, err := startEndpoint(addr, cert, packets)
+	ep, err := startEndpoint(addr, cert, packets, froms)
 	if err != nil {
 		out.Skipped = "endpoint: " + err.Error()
 		return out
@@ -218,7 +269,8 @@ func Run(sc Scenario) Outcome {
 		}
 	}
 	if out.PreArrived == 0 {
-		out.Skipped = "no packet arrived even before the event"
+		// WriteTo accepted the packets and the healthy endpoint never read one: a verdict, not an environment problem
+		out.NeverDelivered = true
 		return out
 	}
 
@@ -236,7 +288,7 @@ func Run(sc Scenario) Outcome {
 		}
 		time.Sleep(time.Duration(sc.DownMs) * time.Millisecond)
 		for try := 0; ; try++ {
-			ep2, err := startEndpoint(addr, cert, packets)
+			ep2, err := startEndpoint(addr, cert, packets, froms)
 			if err == nil {
 				ep = ep2
 				break
@@ -284,6 +336,9 @@ func Run(sc Scenario) Outcome {
 	for _, p := range tail {
 		out.TailArrived = out.TailArrived && got[string(p)]
 	}
+	if f := froms.other(wantFrom); f != "" {
+		out.BadFrom = f + " (the sender listens on " + wantFrom + ")"
+	}
 	return out
 }
 
@@ -293,13 +348,14 @@ type SweepOutcome struct {
 	Sent         int    `json:"sent"`    // WriteTo returned nil
 	Arrived      int    `json:"arrived"` // read back intact by the endpoint
 	SmallestLost int    `json:"smallest_lost"`
+	BadFrom      string `json:"bad_from,omitempty"`
 	LastErr      string `json:"last_err,omitempty"`
 }
 
 // Sweep sends one packet of every given size (what memberlist hands to the transport: single messages and compound
 // packets filled up to UDPBufferSize = MaxGossipPacketSize) and reports which arrived. No restarts: every packet
 // the sender accepted must arrive.
-func Sweep(sizes []int) SweepOutcome {
+func Sweep(sizes []int, ipv6 bool) SweepOutcome {
 	var out SweepOutcome
 	dir, err := os.MkdirTemp("", "verif-tlssweep-")
 	if err != nil {
@@ -315,7 +371,12 @@ func Sweep(sizes []int) SweepOutcome {
 	lg := slog.New(slog.NewTextHandler(io.Discard, nil))
 	ctx, cancel := context.WithCancel(context.Background())
 	defer cancel()
-	sender, err := cluster.NewTLSTransport(ctx, lg, prometheus.NewRegistry(), "127.0.0.1", 0, &cluster.TLSTransportConfig{
+	if ipv6 && !HasIPv6() {
+		out.Skipped = "no IPv6 loopback"
+		return out
+	}
+	froms := &fromSet{m: map[string]bool{}}
+	sender, err := cluster.NewTLSTransport(ctx, lg, prometheus.NewRegistry(), loopback(ipv6), 0, &cluster.TLSTransportConfig{
 		TLSServerConfig: &web.TLSConfig{TLSCertPath: cf, TLSKeyPath: kf},
 		TLSClientConfig: &config.TLSConfig{InsecureSkipVerify: true},
 	})
@@ -324,7 +385,7 @@ func Sweep(sizes []int) SweepOutcome {
 		return out
 	}
 	defer sender.Shutdown()
-	l, err := net.Listen("tcp", "127.0.0.1:0")
+	l, err := net.Listen("tcp", net.JoinHostPort(loopback(ipv6), "0"))
 	if err != nil {
 		out.Skipped = "no free port: " + err.Error()
 		return out
@@ -332,7 +393,7 @@ func Sweep(sizes []int) SweepOutcome {
 	addr := l.Addr().String()
 	l.Close()
 	packets := make(chan []byte, 4096)
-	ep, err := startEndpoint(addr, cert, packets)
+	ep, err := startEndpoint(addr, cert, packets, froms)
 	if err != nil {
 		out.Skipped = "endpoint: " + err.Error()
 		return out
@@ -360,6 +421,9 @@ loop:
 		case <-time.After(1500 * time.Millisecond): // nothing more is coming
 			break loop
 		}
+	}
+	if f := froms.other(net.JoinHostPort(loopback(ipv6), fmt.Sprint(sender.GetAutoBindPort()))); f != "" {
+		out.BadFrom = f
 	}
 	out.SmallestLost = -1
 	for _, p := range sent {
